@@ -9,6 +9,7 @@ from visions.types.string import String
 
 
 @Path.register_relationship(String, pd.Series)
+@series_handle_nulls
 def string_is_path(series: pd.Series, state: dict) -> bool:
     try:
         s = string_to_path(series.copy(), state)
@@ -19,11 +20,14 @@ def string_is_path(series: pd.Series, state: dict) -> bool:
 
 @Path.register_transformer(String, pd.Series)
 def string_to_path(series: pd.Series, state: dict) -> pd.Series:
-    s = pandas_apply(series, pathlib.PureWindowsPath)
+    # the flavour is decided on the values; missing values are kept as they are
+    values = series.dropna() if series.hasnans else series
+    s = pandas_apply(values, pathlib.PureWindowsPath)
     if not pandas_apply(s, lambda x: x.is_absolute()).all():
-        return pandas_apply(series, pathlib.PurePosixPath)
+        flavour = pathlib.PurePosixPath
     else:
-        return s
+        flavour = pathlib.PureWindowsPath
+    return pandas_apply(series, lambda x: x if pd.isna(x) else flavour(x))
 
 
 @Path.contains_op.register
